@@ -513,6 +513,11 @@ int main(void)
 	c18_havoc();
 	c18_snapshot();
 #endif
+#ifdef FAULT_K
+	/* C17: the FAULT_K-th allocation request made by the call under test returns NULL */
+	vf_alloc_no = 0;                 /* concrete request index from here on */
+	vf_fail_at = FAULT_K;
+#endif
 	/* ================================================================= the call */
 	v = jwt_checker_verify(chk, tok);
 	/* ================================================================= */
@@ -710,6 +715,14 @@ int main(void)
 		REACH(v == 0 && eff_have_key, "accepting path with a key");
 		REACH(v != 0 && pv_verify_calls == 1, "rejecting path after the oracle");
 		REACH(v == 0 && pv_hmac_calls == 1, "accepting HMAC path");
+#endif
+
+#ifdef PROP_C17
+		PROP((v != 0) == (jwt_checker_error(chk) != 0), "C17: under an allocation fault verify still reports failure through return value and flag");
+		if (v != 0)
+			PROP(jwt_checker_error_msg(chk)[0] != '\0', "C17: a failure caused by an allocation fault carries a message");
+		REACHF(vf_faulted && v != 0, "fault injected and reported");
+		REACHF(vf_faulted && v == 0, "fault injected, verification unaffected");
 #endif
 
 #ifdef PROP_C06
